@@ -5,7 +5,7 @@ From PyFS Require Import Base.PyStr Base.Outcome Path.PathModel Path.PathSpec Pa
      FS.Tree FS.Monad FS.Mode FS.Base FS.Mem FS.Ops FS.Ref FS.Agree FS.Wf
      FS.TreeLemmas FS.RefineLemmas FS.RefineProofs FS.Props FS.PropsProofs
      FS.RefineWalkLemmasEq FS.RefineWalkLemmasMk FS.RefineWalkLemmasBfs
-     FS.RefineWalkLemmasCopy.
+     FS.RefineWalkLemmasCopy FS.RefineWalkNn.
 Import ListNotations.
 
 (* ------------------------------------------------------------------ *)
@@ -409,3 +409,299 @@ Section FrameOps.
     - apply F_query; [assumption|]. intro cs. now rewrite (lookup_pre d s sub _ Hl).
   Qed.
 End FrameOps.
+
+(* ------------------------------------------------------------------ *)
+(* the frame theorem for any prefix (d = [] : the tree itself)          *)
+(* ------------------------------------------------------------------ *)
+Lemma plift_nil p q : plift [] p q -> rpath p = rpath q.
+Proof. unfold plift. destruct (rpath p); simpl; intro H; now rewrite H. Qed.
+
+Lemma op_lift_nil o o' : op_lift [] o o' -> same_call o o'.
+Proof.
+  destruct o, o'; simpl; try tauto; intros; split_and; subst;
+    repeat split; auto using plift_nil.
+Qed.
+
+Lemma op_lift_covered d o o' : op_lift d o o' -> covered o' = covered o.
+Proof. destruct o, o'; simpl; try tauto; reflexivity. Qed.
+
+Lemma lift_step_nil s r : lift_step [] s r = r.
+Proof. destruct r as [[t|] v]; reflexivity. Qed.
+
+Theorem ref_frame s sub d o o' :
+  lookup s d = Some sub -> is_dir sub = true ->
+  op_lift d o o' -> not_root_special o -> covered o = true ->
+  ref_run o' s = lift_step d s (ref_run o sub).
+Proof.
+  intros Hl Hs H NR C. destruct d as [|c d].
+  - simpl in Hl. inversion Hl; subst sub. rewrite lift_step_nil.
+    symmetry. apply ref_spelling. now apply op_lift_nil.
+  - apply ref_frame_covered; auto. discriminate.
+Qed.
+
+(* agreement with a transported step is sub-tree agreement *)
+Definition sub_agree' (d : list str) (obs : node * outcome value) (r : rstep) (s : node) : bool :=
+  res_agree (snd obs) (rs_res r)
+  && match rs_tree r with
+     | Some t' => tree_eqb true (fst obs) (put s d t')
+     | None => true
+     end.
+
+Lemma agree_lift d s obs r : agree obs (lift_step d s r) = sub_agree' d obs r s.
+Proof. unfold agree, sub_agree', lift_step. cbn. destruct (rs_tree r); reflexivity. Qed.
+
+(* ------------------------------------------------------------------ *)
+(* NUL characters of a normalised path                                 *)
+(* ------------------------------------------------------------------ *)
+Lemma has_nul_join l : has_char Mem.nul (join [slash] l) = existsb (has_char Mem.nul) l.
+Proof.
+  induction l as [|x l IH]; [reflexivity|].
+  destruct l as [|y l].
+  - simpl. now rewrite orb_false_r.
+  - rewrite join_cons by discriminate. rewrite !has_char_app, IH. reflexivity.
+Qed.
+
+Lemma has_nul_to_path abs l : has_char Mem.nul (to_path abs l) = existsb (has_char Mem.nul) l.
+Proof. unfold to_path. rewrite has_char_app, has_nul_join. now destruct abs. Qed.
+
+Lemma nonul_existsb l : nonul l -> existsb (has_char Mem.nul) l = false.
+Proof.
+  induction 1 as [|x l Hx Hl IH]; [reflexivity|]. simpl. now rewrite Hx, IH.
+Qed.
+
+Lemma existsb_nonul l : existsb (has_char Mem.nul) l = false -> nonul l.
+Proof. intro H. now apply existsb_false_Forall in H. Qed.
+
+Lemma has_nul_pre abs d cs : nonul d ->
+  has_char Mem.nul (to_path abs (d ++ cs)) = has_char Mem.nul (to_path abs cs).
+Proof. intro N. rewrite !has_nul_to_path, existsb_app, (nonul_existsb _ N). reflexivity. Qed.
+
+(* ------------------------------------------------------------------ *)
+(* looking through canonical forms                                     *)
+(* ------------------------------------------------------------------ *)
+Lemma is_dir_canon t : is_dir (canon t) = is_dir t.
+Proof. destruct t; reflexivity. Qed.
+
+Lemma assoc_canon k ents : NoDup (keys ents) ->
+  assoc k (sort_ents (cmap ents)) = option_map canon (assoc k ents).
+Proof.
+  intro N. assert (N' : NoDup (keys (cmap ents))) by now rewrite keys_cmap.
+  destruct (sort_ents_props (cmap ents) N') as (_ & _ & H). rewrite H. apply assoc_cmap.
+Qed.
+
+Lemma lookup_canon p : forall t, wf_node t -> lookup (canon t) p = option_map canon (lookup t p).
+Proof.
+  induction p as [|c p IH]; intros t W; [reflexivity|].
+  destruct t as [|ents m]; [reflexivity|].
+  rewrite canon_dir. cbn [lookup]. pose proof W as W'. apply wf_node_dir in W' as (N & _ & _).
+  rewrite (assoc_canon _ _ N). destruct (assoc c ents) as [ch|] eqn:E; [|reflexivity].
+  cbn [option_map]. apply IH. eapply wf_assoc; eauto.
+Qed.
+
+Lemma lookup_canon_put d : forall s sub x, wf_node s -> lookup s d = Some sub ->
+  lookup (canon (put s d x)) d = Some (canon x).
+Proof.
+  induction d as [|c d IH]; intros s sub x W H; [reflexivity|].
+  simpl in H. destruct s as [|ents m]; [discriminate|].
+  destruct (assoc c ents) as [ch|] eqn:E; [|discriminate].
+  pose proof W as W'. apply wf_node_dir in W' as (N & _ & _).
+  assert (K : forall y, lookup (canon (Dir (assoc_set c y ents) m)) (c :: d) = lookup (canon y) d).
+  { intro y. rewrite canon_dir. cbn [lookup]. rewrite assoc_canon.
+    - now rewrite assoc_set_same.
+    - now rewrite (keys_assoc_set_some _ _ _ _ E). }
+  destruct d as [|c2 d2].
+  - cbn [put]. rewrite K. reflexivity.
+  - rewrite put_cons_ne by discriminate. rewrite E, K. eapply IH; eauto. eapply wf_assoc; eauto.
+Qed.
+
+(* a tree equal (up to entry order) to s with the directory at d replaced still has a
+   directory at d *)
+Lemma tree_eqb_sub_survives a s d sub x :
+  wf_node a -> wf_node s -> lookup s d = Some sub -> is_dir x = true ->
+  tree_eqb true a (put s d x) = true ->
+  exists sub', lookup a d = Some sub' /\ is_dir sub' = true.
+Proof.
+  intros Wa Ws Hl Hx E. unfold tree_eqb in E. apply node_eqb_eq in E.
+  pose proof (lookup_canon_put d s sub x Ws Hl) as K. rewrite <- E in K.
+  rewrite (lookup_canon d a Wa) in K.
+  destruct (lookup a d) as [sub'|]; [|discriminate]. exists sub'. split; [reflexivity|].
+  cbn in K. inversion K as [K']. rewrite <- (is_dir_canon sub'), K', is_dir_canon. exact Hx.
+Qed.
+
+Lemma tree_eqb_is_dir a b : tree_eqb true a b = true -> is_dir a = is_dir b.
+Proof.
+  unfold tree_eqb. intro E. apply node_eqb_eq in E.
+  rewrite <- (is_dir_canon a), E. apply is_dir_canon.
+Qed.
+
+(* ------------------------------------------------------------------ *)
+(* join(root, name) for any spelling of the root                       *)
+(* ------------------------------------------------------------------ *)
+Lemma split_on_app_gen c a b : split_on c (a ++ c :: b) = split_on c a ++ split_on c b.
+Proof.
+  induction a as [|x a IH]; simpl.
+  - now rewrite ceqb_refl.
+  - destruct (ceqb x c); [now rewrite IH|].
+    rewrite IH. pose proof (split_on_nonnil c a) as Hn.
+    destruct (split_on c a) as [|h t]; [congruence|]. reflexivity.
+Qed.
+
+Lemma resolve_stack_app X Y : forall st,
+  resolve_stack (X ++ Y) st =
+  match resolve_stack X st with Some r => resolve_stack Y (rev r) | None => None end.
+Proof.
+  induction X as [|c X IH]; intro st; simpl.
+  - now rewrite rev_involutive.
+  - destruct (c_empty c || c_dot c); [apply IH|].
+    destruct (c_dotdot c); [|apply IH].
+    destruct st; [reflexivity|apply IH].
+Qed.
+
+Lemma pjoin_root_spelling p k : resolve (comps p) = Some [] -> good k ->
+  exists b, pjoin [p; k] = Ok (to_path b [k]).
+Proof.
+  intros E Gk. assert (G1 : Forall good [k]) by (constructor; [exact Gk|constructor]).
+  destruct p as [|x t] eqn:Ep.
+  - exists false. destruct (good_head k Gk) as [y [t' [Ek Hy]]].
+    assert (Ejs : join_scan [[]; k] false [] = (false, [k])).
+    { subst k. simpl. rewrite Hy. reflexivity. }
+    erewrite pjoin_eq by exact Ejs. change (join s_slash [k]) with (to_path false [k]).
+    rewrite normpath_nf by exact G1. reflexivity.
+  - rewrite <- Ep in *. assert (Hp : p <> []) by (subst; discriminate).
+    erewrite pjoin_eq by (apply join_scan_two; assumption).
+    change (join s_slash [p; k]) with (p ++ slash :: k).
+    rewrite normpath_spec. unfold spec_normpath, comps, resolve.
+    rewrite split_on_app_gen, resolve_stack_app. unfold resolve, comps in E. rewrite E.
+    rewrite split_on_nochar by (apply good_noslash; exact Gk).
+    cbn [rev]. rewrite resolve_good_all by exact G1. cbn [rev app bind].
+    destruct (starts_c slash p).
+    + exists true. now rewrite abspath_nf_gen by exact G1.
+    + eexists. reflexivity.
+Qed.
+
+Lemma rpath_single b k : good k -> nonulc k -> rpath (to_path b [k]) = inl [k].
+Proof.
+  intros Gk Nk. unfold rpath. change Ref.nul with Mem.nul.
+  rewrite has_nul_to_path. cbn [existsb]. unfold nonulc in Nk. rewrite Nk. cbn [orb].
+  rewrite resolve_comps_nf by (constructor; [exact Gk|constructor]). reflexivity.
+Qed.
+
+(* ------------------------------------------------------------------ *)
+(* the frame theorem for makedirs / copydir / movedir                  *)
+(* ------------------------------------------------------------------ *)
+Lemma pif_pre d s sub : lookup s d = Some sub -> forall rest pre,
+  prefix_is_file s (d ++ pre) rest = prefix_is_file sub pre rest.
+Proof.
+  intro Hl. induction rest as [|c r IH]; intro pre; [reflexivity|].
+  cbn [prefix_is_file]. rewrite <- app_assoc, (lookup_pre d s sub _ Hl).
+  destruct (lookup sub (pre ++ [c])) as [[|]|]; try reflexivity; apply IH.
+Qed.
+
+Lemma pif_self d : forall s sub, lookup s d = Some sub -> is_dir sub = true ->
+  prefix_is_file s [] d = false.
+Proof.
+  intros s sub Hl Hs. destruct (list_snoc_case d) as [->|[d0 [c ->]]]; [reflexivity|].
+  rewrite pif_app. rewrite (pif_dirs d0 s [] c sub Hl). cbn [orb app prefix_is_file].
+  rewrite Hl. destruct sub; [discriminate|reflexivity].
+Qed.
+
+Lemma mkdirs_pre d : forall rest s sub pre, lookup s d = Some sub ->
+  mkdirs s (d ++ pre) rest = put s d (mkdirs sub pre rest).
+Proof.
+  induction rest as [|c r IH]; intros s sub pre Hl.
+  - cbn [mkdirs]. now rewrite (put_id _ _ _ Hl).
+  - cbn [mkdirs]. rewrite <- app_assoc, (lookup_pre d s sub _ Hl).
+    destruct (lookup sub (pre ++ [c])).
+    + now apply IH.
+    + rewrite (put_pre d s sub _ _ Hl).
+      rewrite (IH _ (put sub (pre ++ [c]) empty_dir)) by (eapply lookup_put_at; eauto).
+      now rewrite put_put.
+Qed.
+
+Section FrameWalk.
+  Variables (s sub : node) (d : list str).
+  Hypothesis Hd : d <> [].
+  Hypothesis Hl : lookup s d = Some sub.
+  Hypothesis Hsub : is_dir sub = true.
+
+  Notation L := (lift_step d s).
+
+  Lemma pif_whole cs : prefix_is_file s [] (d ++ cs) = prefix_is_file sub [] cs.
+  Proof.
+    rewrite pif_app, (pif_self d s sub Hl Hsub). cbn [orb app].
+    rewrite <- (app_nil_r d) at 1. now apply pif_pre.
+  Qed.
+
+  Lemma mkdirs_whole cs : mkdirs s [] (d ++ cs) = put s d (mkdirs sub [] cs).
+  Proof.
+    rewrite mkdirs_app. rewrite (mkdirs_exists d s [] sub Hl). cbn [app].
+    rewrite <- (app_nil_r d) at 1. now apply mkdirs_pre.
+  Qed.
+
+  Lemma F_makedirs cs r : ref_makedirs s (d ++ cs) r = L (ref_makedirs sub cs r).
+  Proof.
+    unfold ref_makedirs. rewrite pif_whole, (status_pre d s sub _ Hl).
+    destruct (prefix_is_file sub [] cs); [now rewrite (lift_fail s sub d Hl)|].
+    destruct (status_of sub cs); try (rewrite lift_mk; now rewrite mkdirs_whole).
+    destruct r; now rewrite ?(lift_same s sub d Hl), ?(lift_fail s sub d Hl).
+  Qed.
+
+  Lemma F_dte a b c mv :
+    dirtransfer_errors s (d ++ a) (d ++ b) c mv = dirtransfer_errors sub a b c mv.
+  Proof.
+    unfold dirtransfer_errors.
+    rewrite list_prefix_app, !(status_pre d s sub _ Hl), pif_whole.
+    rewrite (match_ne (d ++ b)) by (now apply dcs_ne).
+    do 2 f_equal. destruct (status_of sub b); try reflexivity; f_equal; destruct mv; try reflexivity.
+    - destruct b as [|x b'].
+      + rewrite app_nil_r, (status_parent_d s sub d Hd Hl). reflexivity.
+      + rewrite parent_pre by discriminate. now rewrite (status_pre d s sub _ Hl).
+    - destruct b as [|x b'].
+      + rewrite app_nil_r, (status_parent_d s sub d Hd Hl). reflexivity.
+      + rewrite parent_pre by discriminate. now rewrite (status_pre d s sub _ Hl).
+  Qed.
+
+  Lemma dte_src_ne b c mv : dirtransfer_errors sub [] b c mv = [] -> False.
+  Proof. unfold dirtransfer_errors. cbn [list_prefix app]. discriminate. Qed.
+
+  Lemma F_dirtransfer a b c pt mv :
+    ref_dirtransfer s (d ++ a) (d ++ b) c pt mv = L (ref_dirtransfer sub a b c pt mv).
+  Proof.
+    unfold ref_dirtransfer. rewrite path_eqb_app.
+    destruct (mv && path_eqb a b); [now rewrite (lift_same s sub d Hl)|].
+    rewrite F_dte. destruct (dirtransfer_errors sub a b c mv) eqn:T; [|now rewrite (lift_fail s sub d Hl)].
+    assert (Ha : a <> []) by (intro; subst a; exact (dte_src_ne _ _ _ T)).
+    rewrite list_prefix_app. destruct (list_prefix b a); [reflexivity|].
+    rewrite !(lookup_pre d s sub _ Hl).
+    destruct (lookup sub a) as [src|]; [|destruct (lookup sub b); now rewrite (lift_fail s sub d Hl)].
+    destruct (lookup sub b) as [dst|].
+    - destruct (merge_node (S (tree_size src)) pt dst (fresh pt src)) as [m|]; [|reflexivity].
+      cbv zeta. rewrite lift_mk. f_equal. f_equal. destruct mv.
+      + now apply del_put_pre.
+      + now apply put_pre.
+    - cbv zeta. rewrite lift_mk. f_equal. f_equal. destruct mv.
+      + now apply del_put_pre.
+      + rewrite mkdirs_whole.
+        rewrite (put_pre d _ (mkdirs sub [] b)) by (eapply lookup_put_at; eauto).
+        now rewrite put_put.
+  Qed.
+End FrameWalk.
+
+Definition is_walk (o : op) : bool :=
+  match o with OMakedirs _ _ | OCopydir _ _ _ _ | OMovedir _ _ _ _ => true | _ => false end.
+
+Theorem ref_frame_walk s sub d o o' :
+  lookup s d = Some sub -> is_dir sub = true ->
+  op_lift d o o' -> is_walk o = true ->
+  ref_run o' s = lift_step d s (ref_run o sub).
+Proof.
+  intros Hl Hs H C. destruct d as [|c0 d0].
+  - simpl in Hl. inversion Hl; subst sub. rewrite lift_step_nil.
+    symmetry. apply ref_spelling. now apply op_lift_nil.
+  - assert (Hd : c0 :: d0 <> []) by discriminate.
+    destruct o, o'; simpl in H; try contradiction; try discriminate C; split_and; subst;
+      cbn [ref_run].
+    + apply (F_with1 s sub _ Hl); [assumption|]. intros cs R. now apply F_makedirs.
+    + apply (F_with2 s sub _ Hl); try assumption. intros a b _ _. now apply F_dirtransfer.
+    + apply (F_with2 s sub _ Hl); try assumption. intros a b _ _. now apply F_dirtransfer.
+Qed.
